@@ -706,6 +706,11 @@ class Exec(ExprMixin, StmtMixin, LoopMixin, ModelMixin):
         node = f.node
         if self.depth > 40:
             raise Unsupported("call depth")
+        if f.name.startswith("_build_doc") or f.name in ("__repr__", "_repr"):
+            # documentation / repr string building is dropped by the extraction (DESIGN section 2): an opaque string
+            t = self.fresh("docstr", T.Val)
+            self.define(T.isstr(t))
+            return Sym("val", t)
         fc = self.config.get("fn_contracts", {}).get((f.module.name, f.name)) if f.env is None and f.owner is None else None
         if fc is not None and not (self.config.get("verify_fn") == (f.module.name, f.name) and not any(g.node is node for g in self.stack)):
             # modular call of a function under contract: the caller is checked against the contract, not the body
